@@ -94,9 +94,17 @@ KNOWN_TYPES = ["cargo", "gem", "golang", "maven", "npm", "nuget", "pypi"]
 IDENTS = ["Cargo", "Gem", "Golang", "Maven", "Npm", "NuGet", "PyPI"]
 
 
+# syntactically valid types that LOOK like a known one (digit-for-letter, rn-for-m, one edit, affixes) or are other real types
+NEAR_TYPES = ["carg0", "g3m", "g0lang", "go1ang", "mav3n", "rnaven", "nprn", "nug3t", "pyp1", "pypl", "cargo2", "npm-", "n.pm", "golang+", "gem.", "cargoo", "crago", "mpn",
+              "c4rgo", "ge", "gems", "go", "golan", "mvn", "maven2", "node", "npmjs", "nu-get", "py-pi", "pip", "pypi3", "vvheel", "deb", "rpm", "docker", "github", "generic",
+              "oci", "swift", "conan", "cran", "hex", "pub", "composer", "cocoapods", "bitbucket", "huggingface", "mlflow", "qpkg", "swid", "alpm", "apk", "luarocks", "cpan"]
+
+
 def rand_type(r):
     if r.chance(1, 3):
         return r.pick(KNOWN_TYPES)
+    if r.chance(1, 5):
+        return r.pick(NEAR_TYPES)
     n = r.below(5)
     return r.pick(TYPE_FIRST) + "".join(r.pick(TYPE_REST) for _ in range(n))
 
